@@ -173,11 +173,70 @@ pub fn record_cnf(args: &Args) {
         }
         // ---- the incremental residual hasher across a push / decide / pop history
         if nv > 0 && cnf.clauses().iter().all(|c| !c.is_empty()) {
+            let bulk = if rng.chance(1, 4) { *rng.pick(&[27usize, 282, 514, 950, 3271]) - rng.below(3) } else { 0 };
+            // a bulk-padded hasher gets a CNF of its own: two clauses over pairwise different variables (falsifying one literal changes
+            // exactly one literal occurrence of the residual)
+            let (cnf, nv) = if bulk > 0 {
+                let n = nmax.max(4).min(8);
+                let vars = rng.perm(n);
+                let k = rng.range(2, n - 2);
+                let c2 = vec![vars[..k].iter().map(|v| (*v, rng.coin())).collect::<Vec<_>>(), vars[k..].iter().map(|v| (*v, rng.coin())).collect::<Vec<_>>()];
+                let c = mk_cnf(&c2);
+                let n2 = c.num_vars();
+                (c, n2)
+            } else {
+                (cnf.clone(), nv)
+            };
             out.emit(json!({"ev": "h_new", "cnf": stored_json(&cnf), "nv": nv}));
-            let mut h = cnf.hasher().clone();
-            let mut m = PartialModel::new(nv);
+            // one hasher in four belongs to a BULK-padded copy of the CNF: N clauses (z | f) over two fresh variables come first and z is
+            // decided true at once (they are satisfied for ever and drop out of every residual), so that the recorded clauses are literal
+            // occurrences number 2N + 1 and up; N puts occurrence 55, 565, 1029, 1901 or 6543 (the first prime beyond 2^8, 2^12, 2^13,
+            // 2^14, 2^16) on one of the first recorded literals. The record shows the recorded clauses only.
+            let big;
+            let mut h = if bulk > 0 {
+                let lit = |l: usize, p: bool| Literal::new(VarLabel::new_usize(l), p);
+                let mut cl: Vec<Vec<Literal>> = (0..bulk).map(|_| vec![lit(nv, true), lit(nv + 1, true)]).collect();
+                cl.extend(cnf.clauses().iter().cloned());
+                big = Cnf::new(&cl);
+                let mut h = big.hasher().clone();
+                h.decide(lit(nv, true));
+                h
+            } else {
+                cnf.hasher().clone()
+            };
+            let nol2 = bulk > 0;
+            let mut m = PartialModel::new(nv + 2);
+            if bulk > 0 {
+                m.set(VarLabel::new_usize(nv), true);
+            }
             let mut saved: Vec<PartialModel> = vec![];
             let mut bursted = false;
+            if bulk > 0 {
+                // first the neighbouring states that falsify ONE literal occurrence each of the first clauses (their residuals differ in
+                // exactly the occurrences that sit on the boundary)
+                let occ: Vec<Literal> = cnf.clauses().iter().take(3).flatten().cloned().collect();
+                for l in occ.iter().take(7) {
+                    let nl = Literal::new(l.label(), !l.polarity());
+                    h.push();
+                    out.emit(json!({"ev": "h_push"}));
+                    h.decide(nl);
+                    let mut m2 = m.clone();
+                    m2.set(nl.label(), nl.polarity());
+                    out.emit(json!({"ev": "h_decide", "lit": lit_i(&nl)}));
+                    let mut hev = json!({"ev": "h_hash", "pm": pm_json(&m2, nv), "nol2": true});
+                    match guarded(|| format!("{:?}", h.hash(&m2))) {
+                        Ok(sv) => {
+                            let nums: Vec<u128> = sv.split(|c: char| !c.is_ascii_digit()).filter(|t| !t.is_empty()).map(|t| t.parse().unwrap()).collect();
+                            hev["h1"] = json!(limbs(nums[0]));
+                            hev["h2"] = json!(limbs(nums[1]));
+                        }
+                        Err(msg) => hev["panic"] = json!(msg),
+                    }
+                    out.emit(hev);
+                    h.pop();
+                    out.emit(json!({"ev": "h_pop"}));
+                }
+            }
             for _ in 0..14 {
                 match rng.below(4) {
                     0 => {
@@ -234,7 +293,11 @@ pub fn record_cnf(args: &Args) {
                         out.emit(ev);
                     }
                 }
-                emit_guarded(&mut out, json!({"ev": "h_hash", "pm": pm_json(&m, nv)}), |e| {
+                let mut hev = json!({"ev": "h_hash", "pm": pm_json(&m, nv)});
+                if nol2 {
+                    hev["nol2"] = json!(true);
+                }
+                emit_guarded(&mut out, hev, |e| {
                     let hv = h.hash(&m);
                     // HashedCNF is opaque: its Debug form is "HashedCNF { v: [a, b] }"
                     let s = format!("{:?}", hv);
